@@ -1,9 +1,9 @@
 SPECIFICATION RSpec
 CONSTANTS
   Pool = "c"
-  MaxActions = 1
-  MaxOps = 3
-  MaxPick = 2
+  MaxActions = 3
+  MaxOps = 0
+  MaxPick = 1
   Layouts = {"aux-first"}
 INVARIANTS RTypeOK ItfTheorems SubsConsistent GetSeesLastSet GetDenotesLastSet DeliveredIffSubscribed RefsDenoteSent ExecutedOnce ImplHoldsServiceIds ClientRefsResolvable ForwardersSound HandlesFresh
 CHECK_DEADLOCK FALSE
